@@ -6,15 +6,17 @@ export GOWORK=off GOFLAGS=-mod=mod GOPROXY=off GOSUMDB=off GOTOOLCHAIN=local
 mkdir -p .bin .work evidence replays
 (cd extract && go build -o ../.bin/agdextract .)
 mkdir -p lean/Agd/Gen
-./.bin/agdextract -repo "${VERIF_REPO:-/repo}" -out lean/Agd/Gen -spec extract/facts
-(cd lean && lake build Agd agdmodel)
 R="${VERIF_REPO:-/repo}"; cat "$R"/go.sum "$R"/internal/dnsserver/go.sum | sort -u > harness/go.sum
-MODFLAG=""
+MODFLAG=""; TRMOD=""
 if [ "$(realpath "$R")" != "/repo" ]; then
   sed "s#=> /repo#=> $(realpath "$R")#" harness/go.mod > harness/go.alt.mod
   cp harness/go.sum harness/go.alt.sum
   MODFLAG="-modfile=$(pwd)/harness/go.alt.mod"
+  TRMOD="-modfile $(pwd)/harness/go.alt.mod"
 fi
+# source facts (syntactic) and translated definitions (extract/tr.go), both regenerated from the tree
+./.bin/agdextract -repo "$R" -out lean/Agd/Gen -spec extract/facts -trspec extract/translate -harness "$(pwd)/harness" $TRMOD
+(cd lean && lake build Agd agdmodel)
 for d in harness/cmd/*/; do
   n=$(basename "$d")
   (cd harness && go build $MODFLAG -tags verif -o ../.bin/"$n" ./cmd/"$n")
